@@ -87,7 +87,7 @@ def one(case, rng, d, idx):
     src, dst = os.path.join(work, "model.pt"), os.path.join(work, "model_injected.pt")
     # the pickle protocol of the model pickle is a choice of whoever saved the file (2 is torch's default; 4 and 5 frame
     # the pickle, so inserting the call has to keep the announced frame length right)
-    torch.save(obj, src, pickle_protocol=(2, 4, 5)[idx % 3])
+    torch.save(obj, src, pickle_protocol=(2, 4, 5, 1)[idx % 4])       # (1: the model pickle has no PROTO header at all)
     keep = os.path.join(d, f"keep{idx}.pt")
     shutil.copy(src, keep)
     h0 = sha(src)
